@@ -32,7 +32,7 @@ RULE = (
 )
 ASSUMPTIONS = [
     "no overdrawn accounts and no from-date (as the quantifier says)",
-    "lot costs are worth >= 1e-6 fiat (RP2 lists an asset only when its unrealized cost is > 0 at 13 decimals)",
+    "an asset whose unsold parts are worth less than 1e-12 fiat may be listed or not (RP2 lists an asset when a lot's unrealized cost is > 0 at 13 decimals)",
     "numbers are compared at 1e-9 relative (cells are doubles, sums of doubles)",
 ]
 SETTINGS: Dict[str, Dict[str, Any]] = {
@@ -85,7 +85,8 @@ def _one(ctx: Any, case: Dict[str, Any], name: str) -> None:
         op = open_positions(op_path, case["language"])
         report = FullReport(full_path, case["language"])
         violations: List[Tuple[str, Dict[str, Any]]] = []
-        expected_assets = []
+        expected_assets: List[str] = []
+        optional_assets: List[str] = []
         total_unrealized = Fraction(0)
         per_asset: Dict[str, Dict[str, Any]] = {}
         for asset, hist in hists.items():
@@ -106,10 +107,15 @@ def _one(ctx: Any, case: Dict[str, Any], name: str) -> None:
                     holders[holder] = holders.get(holder, Fraction(0)) + b["final"]
                     accounts[(holder, exchange)] = b["final"]
             per_asset[asset] = {"unrealized": unrealized, "holders": holders, "accounts": accounts, "acquired": acquired_cost, "realized_shown": realized_shown, "partial": any(0 < consumed.get(l.row, 0) < l.amount for l in lots)}
-            if unrealized > Fraction(1, 10**6) and holders:
-                expected_assets.append(asset)
-                total_unrealized += unrealized
+            if unrealized > 0 and holders:
+                if unrealized >= Fraction(1, 10**12):
+                    expected_assets.append(asset)
+                else:
+                    optional_assets.append(asset)  # unsold dust worth less than RP2's resolution: listing is unspecified
         shown_assets = sorted({r["asset"] for r in op["asset"]})
+        optional_listed = [a for a in optional_assets if a in shown_assets]
+        expected_assets += optional_listed
+        total_unrealized = sum((per_asset[a]["unrealized"] for a in expected_assets), Fraction(0))
         if shown_assets != sorted(expected_assets):
             violations.append(("openpositions.assets-listed", {"shown": shown_assets, "expected": sorted(expected_assets)}))
         if sorted(op["input"]) != sorted(expected_assets):
